@@ -131,9 +131,7 @@ theorem withoutMissing_spec (cf : Conf) (p : Nat) (g : G) (l : List Nat) :
     · simp only [hx, if_true]
       let g' : G := { g with rs := upd g.rs x { g.rs x with t := { (g.rs x).t with failNow := true } } }
       have hsame : ∀ q, sameExe cf g' p q = sameExe cf g p q := by
-        intro q; simp only [sameExe, g']; by_cases hq : q = x
-        · subst hq; simp [upd_same]
-        · simp [upd_other _ _ _ _ hq]
+        intro q; rfl
       obtain ⟨i1, i2, i3, i4, i5, i6⟩ := ih g'
       refine ⟨?_, ?_, ?_, ?_, ?_, ?_⟩
       · intro q
@@ -371,8 +369,8 @@ theorem nextOf_other (cf : Conf) (k : Kind) (g : G) (tasks : List Nat) (p r : Na
       · rename_i hm
         obtain ⟨i1, i2, i3, i4, i5, i6⟩ := withoutMissing_spec cf p (execRun cf g p).g (tasks.erase p)
         have hse : sameExe cf (execRun cf g p).g p r = false := by
-          simp only [sameExe, Bool.and_eq_false_iff, beq_eq_false_iff_ne]
-          right; exact fun e => hmiss hm e.symm
+          simp only [sameExe, beq_eq_false_iff_ne]
+          exact fun e => hmiss hm e.symm
         refine ⟨by rw [i2 r (Or.inr hse)]; exact hr0, NoSharedNF_of_markOnly cf r _ _ hns1 i1, ?_⟩
         intro h
         exact i4 r ((List.mem_erase_of_ne hpr).mpr h) hse
